@@ -505,8 +505,14 @@ func runMemberCase(w *gal.Writer, datahash string, plant bool, fresh bool) {
 	}
 	desc := map[string]any{"kind": "cache-member", "experiment": class, "datahash": datahash, "member_path": c.abstract(dat), "member_planted": datExists,
 		"tar_created": tarCreated, "changed_outside": changed, "error": c.abstract(errStr(ierr))}
-	term := fmt.Sprintf("(CMember {| m_cachedir := %s; m_roots := %s; m_datahash := %s; m_dat_exists := %s; m_tar_created := %s; m_changed := %s |})",
-		gal.Str(c.abstract(cacheDir)), rootsTerm, gal.Str(datahash), gal.Bool(datExists && !fresh), gal.Bool(tarCreated), gal.StrList(changed))
+	freshTerm := "None"
+	if fresh {
+		accepted := !strings.Contains(errStr(ierr), "data section hash mismatch")
+		desc["verify_accepted"] = accepted
+		freshTerm = fmt.Sprintf("(Some (%s, %s))", gal.Str(hex.EncodeToString(built.DataSHA256)), gal.Bool(accepted))
+	}
+	term := fmt.Sprintf("(CMember {| m_cachedir := %s; m_roots := %s; m_datahash := %s; m_dat_exists := %s; m_tar_created := %s; m_fresh := %s; m_changed := %s |})",
+		gal.Str(c.abstract(cacheDir)), rootsTerm, gal.Str(datahash), gal.Bool(datExists && !fresh), gal.Bool(tarCreated), freshTerm, gal.StrList(changed))
 	w.Add(gal.Case{Term: term, Desc: desc, Class: class, Trivial: false})
 }
 
